@@ -299,7 +299,7 @@ pub fn generate(tier: Tier, rng: &mut Rng) -> Vec<Case> {
             "{'a': 1}.all(k, ['a', 'b'].exists(s, s == k))",
             "{'a': 1}.map(k, [1].map(i, k))",
             "[1, 2].filter(x, [0].all(y, x > 1))",
-            "[1, 2].map(x, [5].map(x, x))",
+            "[1, 2].map(x, [5].map(x, x))", "[7].map(x, [1, 2].map(x, x))", "[7].map(x, [1, 2].all(x, x < 3))", "[7].map(x, [x, 2].map(x, x + 1))", "['a'].map(x, [1].map(x, x))", "[7].map(x, [8].map(y, [9].map(x, x + y)))", "[true].map(x, [1, 2].filter(x, x > 1))",
             "[1, 2].map(x, [x].map(x, x * 2))",
             "[1, 2].exists_one(x, [1].exists(y, x == 2 && y == 1))",
             "[1, 2].map(x, x > 1, [7].map(y, x * y))",
